@@ -608,8 +608,10 @@ func (s *Service) ProcessRequest(ctx *core.Context, m map[string]interface{}, ou
 				case map[string]interface{}:
 					_, err = s.ProcessRequest(ctx, m, out)
 					if err != nil {
-						problem := fmt.Sprintf(`{"error":"%s"}`, err.Error())
-						_, err = out.Write([]byte(problem))
+						// Marshal so that the message (which can
+						// contain quotes) stays valid JSON.
+						problem, _ := json.Marshal(map[string]string{"error": err.Error()})
+						_, err = out.Write(problem)
 					}
 				default:
 					problem := fmt.Sprintf(`"bad type %T"`, x)
